@@ -162,6 +162,30 @@ Proof.
   rewrite (IH x Hx), (forallb_eval_ext v w _ Hr), (existsb_eval_ext v w _ Hr). reflexivity.
 Qed.
 
+(* outstanding lookups *)
+Definition total (l : list N) (c : st) : nat := fold_right (fun i acc => (length (lrem c i) + acc)%nat) O l.
+
+Lemma total_le l c c' : (forall j, (length (lrem c' j) <= length (lrem c j))%nat) -> (total l c' <= total l c)%nat.
+Proof. intros H. induction l as [|i l IH]; cbn [total fold_right]; [lia|]. specialize (H i). fold (total l c') (total l c). lia. Qed.
+
+Lemma total_lt l c c' j :
+  (forall j, (length (lrem c' j) <= length (lrem c j))%nat) -> In j l ->
+  (length (lrem c' j) < length (lrem c j))%nat -> (total l c' < total l c)%nat.
+Proof.
+  intros H IN LT. induction l as [|i l IH]; [destruct IN|]. cbn [total fold_right]. fold (total l c') (total l c).
+  pose proof (total_le l c c' H). destruct IN as [->|IN]; [lia|]. specialize (IH IN). specialize (H i). lia.
+Qed.
+
+
+Lemma first_from_bound v isb : forall l idx q, first_from v isb idx l = Some q -> idx <= q /\ q < idx + lenN l.
+Proof.
+  induction l as [|x l IH]; intros idx q H; cbn [first_from] in H; [discriminate|].
+  cbn [lenN]. destruct (negb (isb idx) && eval v x).
+  - inversion H; subst. lia.
+  - apply IH in H. lia.
+Qed.
+
+
 (* ---------- invariants ---------- *)
 Section Proofs.
 Variable scr : N -> lscript.
@@ -214,6 +238,33 @@ Lemma upd_other {A} (f : N -> A) i v j : j <> i -> upd f i v j = f j.
 Proof. intros H. unfold upd. apply N.eqb_neq in H. now rewrite H. Qed.
 
 (* ---------- 1. one invocation of a scripted leaf ---------- *)
+(* the checklist after goAsync() on a Real / Fake lookup *)
+Definition c_real (i : N) (c : st) : st :=
+  set_stg SRunning (set_pending (Some i) (set_starts (starts c + 1)
+    (set_stg SStarting (set_depth (depth c + 1) (set_asyncLoc (matchLoc c) c))))).
+Definition c_fake (i : N) (c : st) : st :=
+  set_stg SNone (set_stg SFailed (set_lrem (upd (lrem c) i (tl (lrem c i))) (set_starts (starts c + 1)
+    (set_stg SStarting (set_depth (depth c + 1) (set_asyncLoc (matchLoc c) c)))))).
+
+Lemma goAsync_refused i a c loc :
+  stg c = SNone -> matchLoc c = Some loc ->
+  asyncCaller c = false \/ crumb_eqb (Some loc) (asyncLoc c) && (5 <? depth c) = true ->
+  goAsync i a c = (false, c).
+Proof.
+  intros Q ML H. unfold goAsync, asyncInProgress. rewrite Q, ML. cbn [stage_eqb negb is_none orb].
+  destruct (asyncCaller c); cbn [negb]; [|reflexivity].
+  destruct H as [H|H]; [discriminate|]. rewrite H. reflexivity.
+Qed.
+
+Lemma goAsync_go i a c loc :
+  stg c = SNone -> matchLoc c = Some loc -> asyncCaller c = true ->
+  crumb_eqb (Some loc) (asyncLoc c) && (5 <? depth c) = false ->
+  goAsync i a c = match a with Real => (true, c_real i c) | Fake => (false, c_fake i c) end.
+Proof.
+  intros Q ML AC T. unfold goAsync, asyncInProgress. rewrite Q, ML, AC, T. cbn [stage_eqb negb is_none orb].
+  destruct a; unfold c_real, c_fake; rewrite ?ML; reflexivity.
+Qed.
+
 Lemma leaf_loop_ok i : forall atts c k loc r c',
   quiet c -> matchLoc c = Some loc -> lrem c i = atts -> depth c = N.of_nat k -> (k <= 6)%nat ->
   ((0 < k)%nat -> asyncLoc c = Some loc) ->
@@ -230,8 +281,7 @@ Proof.
     split; [apply inv_refl; assumption|]. split; [reflexivity|]. left. split; [assumption|].
     cbn [lval_k]. destruct (truth (scr i)); reflexivity.
   - destruct Q as (Q1 & Q2 & Q3).
-    unfold goAsync in E. unfold asyncInProgress in E. rewrite Q1, ML in E. cbn [stage_eqb negb is_none orb] in E.
-    assert (NOGO : (r, c') = (0%Z, c) ->
+    assert (NOGO : goAsync i a c = (false, c) ->
               lval_k (asyncCaller c) (retry (scr i)) (truth (scr i)) k (a :: rest) = false ->
               inv [i] c c' /\ path c' = path c /\
               ((stg c' = SNone /\ (r =? 1)%Z = lval_k (asyncCaller c) (retry (scr i)) (truth (scr i)) k (a :: rest)) \/
@@ -239,54 +289,1130 @@ Proof.
                 exists rest0, pending c' = Some i /\ lrem c' i = Real :: rest0 /\
                   lval_k true (retry (scr i)) (truth (scr i)) 0 rest0
                   = lval_k (asyncCaller c) (retry (scr i)) (truth (scr i)) k (a :: rest)))).
-    { intros E' V. inversion E'; subst r c'. split; [apply inv_refl; assumption|]. split; [reflexivity|].
+    { intros G V. rewrite G in E. rewrite N.eqb_refl in E.
+      assert (E' : (0%Z, c) = (r, c')) by (destruct (retry (scr i)); cbn [negb] in E; exact E).
+      inversion E'; subst r c'. split; [apply inv_refl; assumption|]. split; [reflexivity|].
       left. split; [assumption|]. rewrite V. reflexivity. }
-    destruct (asyncCaller c) eqn:AC; cbn [negb] in E.
-    2:{ (* fast-only caller: refused *)
-      rewrite N.eqb_refl in E.
-      apply NOGO; [destruct (retry (scr i)); cbn [negb] in E; congruence | reflexivity]. }
+    destruct (asyncCaller c) eqn:AC.
+    2:{ apply NOGO; [eapply goAsync_refused; eauto | reflexivity]. }
     destruct (crumb_eqb (Some loc) (asyncLoc c) && (5 <? depth c)) eqn:T.
-    { (* async loop allowance exhausted: refused *)
-      rewrite N.eqb_refl in E.
-      apply NOGO; [destruct (retry (scr i)); cbn [negb] in E; congruence |].
+    { apply NOGO; [eapply goAsync_refused; eauto |].
       cbn [lval_k negb]. apply andb_prop in T. destruct T as [_ T].
       replace (6 <=? k)%nat with true by (symmetry; apply Nat.leb_le; lia). reflexivity. }
     assert (K5 : (k < 6)%nat).
     { destruct k as [|k']; [lia|]. rewrite (AL ltac:(lia)), crumb_eqb_refl in T. cbn [andb] in T. lia. }
     assert (K5b : (6 <=? k)%nat = false) by (apply Nat.leb_gt; lia).
-    destruct a; unfold starter in E; st.
+    rewrite (goAsync_go i a c loc Q1 ML AC T) in E.
+    destruct a.
     + (* Real: the lookup goes asynchronous *)
-      cbn [stage_eqb negb] in E. inversion E; subst r c'. st.
+      inversion E; subst r c'.
       split.
-      { unfold inv; st. repeat split; auto. }
-      split; [reflexivity|]. right. split; [reflexivity|]. split; [reflexivity|]. split; [assumption|].
-      exists rest. split; [reflexivity|]. split; [assumption|].
+      { unfold inv, c_real; stg. repeat split; auto. }
+      split; [reflexivity|]. right. split; [reflexivity|]. split; [reflexivity|]. split; [exact AC|].
+      exists rest. split; [reflexivity|]. split; [exact LR|].
       cbn [lval_k negb]. rewrite K5b. reflexivity.
     + (* Fake: the lookup completes inside the starter; goAsync() reports failure *)
-      unfold resume_early in E. st. cbn [stage_eqb negb] in E. st. cbn [stage_eqb negb] in E. st.
-      rewrite upd_same in E. rewrite LR in E. cbn [tl] in E.
-      set (c1 := set_stg SNone _) in E.
-      assert (I1 : inv [i] c c1).
-      { unfold inv, c1; st. repeat split; auto.
+      assert (LR1 : lrem (c_fake i c) i = rest).
+      { unfold c_fake; stg. rewrite upd_same, LR. reflexivity. }
+      assert (I1 : inv [i] c (c_fake i c)).
+      { unfold inv, c_fake; stg. repeat split; auto.
         - intros j Hj. apply upd_other. intros ->. apply Hj. left. reflexivity.
         - intros j. unfold upd. destruct (j =? i) eqn:EJ; [apply N.eqb_eq in EJ; subst j; rewrite LR; cbn [tl length]; lia| lia]. }
-      assert (P1 : path c1 = path c) by (unfold c1; st; reflexivity).
+      assert (P1 : path (c_fake i c) = path c) by reflexivity.
       destruct (retry (scr i)) eqn:RT; cbn [negb] in E.
       2:{ inversion E; subst r c'. split; [exact I1|]. split; [exact P1|]. left.
-          split; [unfold c1; st; reflexivity|]. cbn [lval_k negb]. rewrite K5b. reflexivity. }
-      cbn [lenN] in E.
+          split; [reflexivity|]. cbn [lval_k negb]. rewrite K5b. reflexivity. }
+      rewrite LR1, LR in E. cbn [lenN] in E.
       replace (lenN rest =? N.succ (lenN rest)) with false in E by (symmetry; apply N.eqb_neq; lia).
-      assert (Q' : quiet c1) by (unfold quiet, c1; st; auto).
-      specialize (IH c1 (S k) loc r c' Q').
+      assert (Q' : quiet (c_fake i c)) by (unfold quiet, c_fake; stg; auto).
+      specialize (IH (c_fake i c) (S k) loc r c' Q').
       destruct IH as (I2 & P2 & H2).
-      { unfold c1; st. assumption. }
-      { unfold c1; st. apply upd_same. }
-      { unfold c1; st. lia. }
+      { unfold c_fake; stg. exact ML. }
+      { exact LR1. }
+      { unfold c_fake; stg. lia. }
       { lia. }
-      { intros _. unfold c1; st. reflexivity. }
+      { intros _. unfold c_fake; stg. exact ML. }
       { exact E. }
       split; [eapply inv_trans; [exact I1| exact I2| apply incl_refl| apply incl_refl]|].
       split; [congruence|].
-      assert (AC1 : asyncCaller c1 = true) by (unfold c1; st; assumption).
+      assert (AC1 : asyncCaller (c_fake i c) = true) by exact AC.
       rewrite AC1 in H2. cbn [lval_k negb]. rewrite K5b. exact H2.
+Qed.
+
+(* ---------- 2./3. nodes: pre- and postconditions ---------- *)
+Definition startof (pi : list N) : option N := match pi with [] => None | p :: _ => Some p end.
+Definition tailcrumbs (pi : list N) (n : node) : list crumb :=
+  match pi with
+  | [] => []
+  | p :: pi' =>
+      match n with
+      | Inner _ _ cs => match nthN p cs with Some x => crumbs pi' x | None => [] end
+      | Leaf _ => []
+      end
+  end.
+
+(* outcome of matching (a part of) node n whose expected value is V: either it completed in a quiet
+   state with r = V, or it suspended with a matchPath that encodes a valid path of n whose value is V *)
+Definition gpost (ids : list N) (n : node) (V : bool) (c : st) (r : bool) (c' : st) : Prop :=
+  inv ids c c' /\
+  ((stg c' = SNone /\ path c' = [] /\ r = V)
+   \/ (stg c' = SRunning /\ r = false /\ asyncCaller c' = true /\ pend ids c' /\
+       exists pi', vpath pi' n /\ path c' = crumbs pi' n /\ evalp (lv c') pi' n = V)).
+
+Definition npre (x : node) (pi : list N) (c : st) : Prop :=
+  quiet c /\ depth c = 0 /\ (exists loc, matchLoc c = Some loc) /\ vpath pi x /\ path c = tailcrumbs pi x.
+
+Definition run_ok (x : node) : Prop :=
+  NoDup (leaf_ids x) -> forall pi c r c', npre x pi c ->
+  node_run scr x (startof pi) c = (r, c') -> gpost (leaf_ids x) x (evalp (lv c) pi x) c r c'.
+
+Definition mcpre (x : node) (pi : list N) (c : st) : Prop :=
+  quiet c /\ vpath pi x /\ path c = crumbs pi x.
+
+Definition mcpost (cur idx : N) (x : node) (V : bool) (c : st) (r : bool) (c' : st) : Prop :=
+  inv (leaf_ids x) c c' /\
+  ((stg c' = SNone /\ path c' = [] /\ r = V)
+   \/ (stg c' = SRunning /\ r = false /\ asyncCaller c' = true /\ pend (leaf_ids x) c' /\
+       exists pi', vpath pi' x /\ path c' = (cur, idx) :: crumbs pi' x /\ evalp (lv c') pi' x = V)).
+
+Lemma pend_weaken ids ids' c : pend ids c -> incl ids ids' -> pend ids' c.
+Proof. intros (j & rest & A & B & C) I. exists j, rest. auto. Qed.
+
+(* a leaf *)
+Lemma leaf_ok i : run_ok (Leaf i).
+Proof.
+  intros _ pi c r c' (Q & D0 & (loc & ML) & VP & PT) E.
+  destruct pi as [|p pi]; [|destruct VP].
+  cbn [startof node_run] in E. unfold leaf_matches in E.
+  destruct (leaf_loop i (scr i) (lrem (set_trace (i :: trace c) (set_lastName (Some i) c)) i)
+              (set_trace (i :: trace c) (set_lastName (Some i) c))) as [z c1] eqn:EL.
+  inversion E; subst r c'. clear E.
+  set (c0 := set_trace (i :: trace c) (set_lastName (Some i) c)) in *.
+  destruct Q as (Q1 & Q2 & Q3).
+  destruct (leaf_loop_ok i (lrem c0 i) c0 0%nat loc z c1) as (IV & P & H); try assumption; try reflexivity.
+  { unfold quiet, c0; stg. auto. }
+  { lia. }
+  { intros; lia. }
+  assert (I' : inv [i] c c1).
+  { destruct IV as (A1 & A2 & A3 & A4 & A5 & A6 & A7). unfold inv. repeat split; auto. }
+  cbn [leaf_ids tailcrumbs] in *. split; [exact I'|].
+  destruct H as [(S1 & S2)|(S1 & S2 & S3 & rest & S4 & S5 & S6)].
+  - left. split; [exact S1|]. split; [rewrite P; exact PT|]. rewrite S2. cbn [evalp eval]. reflexivity.
+  - right. split; [exact S1|]. split; [exact S2|]. split; [exact S3|]. split.
+    { exists i, rest. split; [exact S4|]. split; [left; reflexivity| exact S5]. }
+    exists []. split; [exact I|]. split; [rewrite P; exact PT|].
+    cbn [evalp eval]. unfold lv at 1. rewrite S3, S5. cbn [lval_k negb Nat.leb]. rewrite S6. reflexivity.
+Qed.
+
+(* ACLChecklist::matchChild over a child that behaves *)
+Lemma matchChild_ok cur idx x pi c r c' :
+  run_ok x -> NoDup (leaf_ids x) -> mcpre x pi c ->
+  matchChild cur idx (node_id x) (node_run scr x) c = (r, c') ->
+  mcpost cur idx x (evalp (lv c) pi x) c r c'.
+Proof.
+  intros OK ND (Q & VP & PT) E. destruct Q as (Q1 & Q2 & Q3).
+  unfold matchChild in E.
+  set (c1 := set_depth 0 (set_matchLoc (Some (cur, idx)) c)) in *.
+  assert (Q' : quiet c1) by (unfold quiet, c1; stg; auto).
+  assert (EV : evalp (lv c1) pi x = evalp (lv c) pi x) by reflexivity.
+  assert (RUN : exists r2 c2, (r, c') = (r2, set_matchLoc None
+                   (if asyncInProgress c2 then set_path ((cur, idx) :: path c2) c2 else set_asyncLoc None c2))
+                 /\ gpost (leaf_ids x) x (evalp (lv c) pi x) c1 r2 c2).
+  { destruct pi as [|q pit].
+    - cbn [crumbs] in PT. replace (path c1) with (@nil crumb) in E by (unfold c1; stg; congruence).
+      destruct (node_run scr x None c1) as [r2 c2] eqn:ER. exists r2, c2. split; [congruence|].
+      rewrite <- EV. apply (OK ND [] c1 r2 c2); [|exact ER].
+      split; [exact Q'|]. split; [reflexivity|]. split; [eexists; reflexivity|]. split; [exact I|].
+      unfold c1; stg. cbn [tailcrumbs]. congruence.
+    - destruct x as [i|i k cs]; [destruct VP|]. cbn [vpath crumbs] in VP, PT.
+      destruct (nthN q cs) as [y|] eqn:EN; [|destruct VP].
+      replace (path c1) with ((i, q) :: crumbs pit y) in E by (unfold c1; stg; congruence).
+      cbn [fst snd node_id] in E. rewrite N.eqb_refl in E.
+      destruct (node_run scr (Inner i k cs) (Some q) (set_path (crumbs pit y) c1)) as [r2 c2] eqn:ER.
+      exists r2, c2. split; [congruence|].
+      rewrite <- EV.
+      assert (G := OK ND (q :: pit) (set_path (crumbs pit y) c1) r2 c2).
+      cbn [startof] in G.
+      assert (PRE : npre (Inner i k cs) (q :: pit) (set_path (crumbs pit y) c1)).
+      { split; [unfold quiet, c1; stg; auto|]. split; [reflexivity|]. split; [eexists; reflexivity|].
+        split; [cbn [vpath]; rewrite EN; exact VP|]. cbn [tailcrumbs]. rewrite EN. reflexivity. }
+      specialize (G PRE ER).
+      destruct G as (IV & G). split.
+      { destruct IV as (A1 & A2 & A3 & A4 & A5 & A6 & A7). unfold inv. repeat split; auto. }
+      exact G. }
+  destruct RUN as (r2 & c2 & ER & (IV & G)). inversion ER; subst r c'. clear ER E.
+  assert (I' : inv (leaf_ids x) c c2).
+  { destruct IV as (A1 & A2 & A3 & A4 & A5 & A6 & A7). unfold inv. repeat split; auto. }
+  destruct G as [(S1 & S2 & S3)|(S1 & S2 & S3 & S4 & pi' & S5 & S6 & S7)].
+  - unfold asyncInProgress. rewrite S1. cbn [stage_eqb negb].
+    split.
+    { destruct I' as (A1 & A2 & A3 & A4 & A5 & A6 & A7). unfold inv; stg. repeat split; auto. }
+    left. stg. auto.
+  - unfold asyncInProgress. rewrite S1. cbn [stage_eqb negb].
+    split.
+    { destruct I' as (A1 & A2 & A3 & A4 & A5 & A6 & A7). unfold inv; stg. repeat split; auto. }
+    right. stg. split; [exact S1|]. split; [exact S2|]. split; [exact S3|]. split.
+    { destruct S4 as (j & rest & B1 & B2 & B3). exists j, rest. stg. auto. }
+    exists pi'. split; [exact S5|]. split; [rewrite S6; reflexivity|]. exact S7.
+Qed.
+
+(* ---------- list positions ---------- *)
+Lemma nthN_app_len {A} (pre : list A) x suf : nthN (lenN pre) (pre ++ x :: suf) = Some x.
+Proof.
+  induction pre as [|y pre IH]; cbn [lenN app nthN]; [reflexivity|].
+  replace (N.succ (lenN pre) =? 0) with false by (symmetry; apply N.eqb_neq; lia).
+  rewrite N.pred_succ. exact IH.
+Qed.
+
+Lemma dropN_app_len {A} (pre : list A) x suf : dropN (lenN pre + 1) (pre ++ x :: suf) = suf.
+Proof.
+  induction pre as [|y pre IH]; cbn [lenN app dropN].
+  - cbn. destruct suf; reflexivity.
+  - replace (N.succ (lenN pre) + 1 =? 0) with false by (symmetry; apply N.eqb_neq; lia).
+    replace (N.pred (N.succ (lenN pre) + 1)) with (lenN pre + 1) by lia. exact IH.
+Qed.
+
+Lemma lenN_map {A B} (f : A -> B) l : lenN (map f l) = lenN l.
+Proof. induction l as [|x l IH]; cbn [map lenN]; congruence. Qed.
+
+Lemma NoDup_app_l {A} (a b : list A) : NoDup (a ++ b) -> NoDup a.
+Proof. induction a as [|x a IH]; intros H; [constructor|]. inversion H; subst. constructor; [intros C; apply H2, in_or_app; left; exact C| apply IH; assumption]. Qed.
+Lemma NoDup_app_r {A} (a b : list A) : NoDup (a ++ b) -> NoDup b.
+Proof. induction a as [|x a IH]; intros H; [exact H|]. inversion H; subst. apply IH; assumption. Qed.
+Lemma NoDup_app_disj {A} (a b : list A) : NoDup (a ++ b) -> forall j, In j a -> ~ In j b.
+Proof.
+  induction a as [|x a IH]; intros H j Hj; [destruct Hj|]. inversion H; subst.
+  destruct Hj as [->|Hj]; [intros C; apply H2, in_or_app; right; exact C| apply IH; assumption].
+Qed.
+
+Definition kmap (l : list node) : kids := map (fun x => (node_id x, node_run scr x)) l.
+
+Lemma quiet_keep c : stg c = SNone -> finished c = false -> keepMatching c = true.
+Proof. intros A B. unfold keepMatching, asyncInProgress. rewrite A, B. reflexivity. Qed.
+Lemma running_stop c : stg c = SRunning -> keepMatching c = false.
+Proof. intros A. unfold keepMatching, asyncInProgress. rewrite A. cbn. apply andb_false_r. Qed.
+
+(* values of later siblings are not disturbed by matching x *)
+Lemma frame_lv x l c c1 :
+  NoDup (leaf_ids x ++ flat_map leaf_ids l) -> inv (leaf_ids x) c c1 ->
+  forall j, In j (flat_map leaf_ids l) -> lv c1 j = lv c j.
+Proof.
+  intros ND IV j Hj. eapply inv_lv; [exact IV|]. intros C. exact (NoDup_app_disj _ _ ND j C Hj).
+Qed.
+
+(* ---------- Acl::AndNode::doMatch ---------- *)
+Lemma and_loop_cons cur start idx cid run l c :
+  and_loop cur start idx ((cid, run) :: l) c =
+  if idx <? start then and_loop cur start (idx + 1) l c
+  else let '(b, c1) := matchChild cur idx cid run c in
+       if negb b then ((if keepMatching c1 then 0 else -1)%Z, c1)
+       else and_loop cur start (idx + 1) l c1.
+Proof. reflexivity. Qed.
+
+Lemma and_loop_skip cur start c : forall l1 l2 idx,
+  idx + lenN l1 <= start -> and_loop cur start idx (l1 ++ l2) c = and_loop cur start (idx + lenN l1) l2 c.
+Proof.
+  induction l1 as [|[cid run] l1 IH]; intros l2 idx H; cbn [app lenN].
+  - now rewrite N.add_0_r.
+  - cbn [lenN] in H. rewrite and_loop_cons.
+    replace (idx <? start) with true by (symmetry; apply N.ltb_lt; lia).
+    rewrite IH by lia. f_equal. lia.
+Qed.
+
+Section AndNode.
+Variables (cur : N) (cs : list node).
+Let n := Inner cur KAnd cs.
+
+Lemma and_step pre x suf pit start c r c' :
+  cs = pre ++ x :: suf -> run_ok x -> NoDup (flat_map leaf_ids (x :: suf)) -> start <= lenN pre ->
+  mcpre x pit c ->
+  (forall c1 r c', quiet c1 -> path c1 = [] ->
+     and_loop cur start (lenN pre + 1) (kmap suf) c1 = (r, c') ->
+     gpost (flat_map leaf_ids suf) n (forallb (eval (lv c1)) suf) c1 (r =? 1)%Z c') ->
+  and_loop cur start (lenN pre) (kmap (x :: suf)) c = (r, c') ->
+  gpost (flat_map leaf_ids (x :: suf)) n (evalp (lv c) pit x && forallb (eval (lv c)) suf) c (r =? 1)%Z c'.
+Proof.
+  intros CS OK ND ST PRE K E. cbn [flat_map] in *.
+  cbn [kmap map] in E. rewrite and_loop_cons in E.
+  replace (lenN pre <? start) with false in E by (symmetry; apply N.ltb_ge; lia).
+  destruct (matchChild cur (lenN pre) (node_id x) (node_run scr x) c) as [b c1] eqn:EM.
+  assert (NX : nthN (lenN pre) cs = Some x) by (rewrite CS; apply nthN_app_len).
+  assert (DX : dropN (lenN pre + 1) cs = suf) by (rewrite CS; apply dropN_app_len).
+  destruct (matchChild_ok _ _ _ _ _ _ _ OK (NoDup_app_l _ _ ND) PRE EM) as (IV & G).
+  assert (FR : forall j, In j (flat_map leaf_ids suf) -> lv c1 j = lv c j) by (eapply frame_lv; eassumption).
+  destruct G as [(S1 & S2 & S3)|(S1 & S2 & S3 & S4 & pi' & S5 & S6 & S7)].
+  - (* the child completed *)
+    destruct IV as (A1 & A2 & A3 & A4 & A5 & A6 & A7).
+    assert (IV : inv (leaf_ids x) c c1) by (unfold inv; repeat split; auto).
+    destruct b; cbn [negb] in E.
+    + fold (kmap suf) in E.
+      destruct (K c1 r c' (conj S1 (conj A2 A1)) S2 E) as (IV2 & G2).
+      rewrite <- S3. cbn [andb]. rewrite (forallb_eval_ext _ _ _ FR) in G2.
+      split; [eapply inv_trans; [exact IV| exact IV2| apply incl_appl, incl_refl| apply incl_appr, incl_refl]|].
+      destruct G2 as [G2|(T1 & T2 & T3 & T4 & T5)]; [left; exact G2|].
+      right. split; [exact T1|]. split; [exact T2|]. split; [exact T3|].
+      split; [eapply pend_weaken; [exact T4| apply incl_appr, incl_refl]| exact T5].
+    + rewrite (quiet_keep c1 S1 A2) in E. inversion E; subst r c'.
+      rewrite <- S3. cbn [andb]. split; [eapply inv_weaken; [exact IV| apply incl_appl, incl_refl]|].
+      left. auto.
+  - (* the child suspended *)
+    subst b. cbn [negb] in E. rewrite (running_stop c1 S1) in E. inversion E; subst r c'.
+    split; [eapply inv_weaken; [exact IV| apply incl_appl, incl_refl]|].
+    right. split; [exact S1|]. split; [reflexivity|]. split; [exact S3|].
+    split; [eapply pend_weaken; [exact S4| apply incl_appl, incl_refl]|].
+    exists (lenN pre :: pi'). unfold n. cbn [vpath crumbs evalp]. rewrite NX, DX.
+    split; [split; [exact Logic.I| exact S5]|]. split; [exact S6|].
+    rewrite S7. f_equal. apply forallb_eval_ext. exact FR.
+Qed.
+
+Lemma and_fresh start : forall suf pre c r c',
+  cs = pre ++ suf -> Forall run_ok suf -> NoDup (flat_map leaf_ids suf) -> start <= lenN pre ->
+  quiet c -> path c = [] ->
+  and_loop cur start (lenN pre) (kmap suf) c = (r, c') ->
+  gpost (flat_map leaf_ids suf) n (forallb (eval (lv c)) suf) c (r =? 1)%Z c'.
+Proof.
+  induction suf as [|x suf IH]; intros pre c r c' CS OK ND ST Q PT E.
+  - cbn in E. inversion E; subst r c'. destruct Q as (Q1 & Q2 & Q3).
+    split; [apply inv_refl; assumption|]. left. auto.
+  - pose proof (Forall_inv OK) as H1. pose proof (Forall_inv_tail OK) as H2.
+    assert (G := and_step pre x suf [] start c r c' CS H1 ND ST).
+    cbn [evalp] in G. apply G; [split; [exact Q|]; split; [exact Logic.I| exact PT] | | exact E].
+    intros c1 r1 c1' Q1 P1 E1.
+    apply (IH (pre ++ [x]) c1 r1 c1').
+    + rewrite <- app_assoc. exact CS.
+    + assumption.
+    + cbn [flat_map] in ND. eapply NoDup_app_r; exact ND.
+    + rewrite lenN_app. cbn [lenN]. lia.
+    + exact Q1.
+    + exact P1.
+    + rewrite lenN_app. cbn [lenN]. exact E1.
+Qed.
+
+Lemma and_node_ok : Forall run_ok cs -> run_ok n.
+Proof.
+  intros OK ND pi c r c' (Q & _ & _ & VP & PT) E. unfold n in *. cbn [leaf_ids] in *.
+  destruct pi as [|p pit].
+  - (* fresh: Acl::Node::matches *)
+    cbn [startof node_run doMatch] in E. fold (kmap cs) in E.
+    destruct (and_loop cur 0 0 (kmap cs) (set_lastName (Some cur) c)) as [z c1] eqn:EL.
+    inversion E; subst r c'. cbn [evalp eval].
+    destruct Q as (Q1 & Q2 & Q3).
+    destruct (and_fresh 0 cs [] (set_lastName (Some cur) c) z c1 eq_refl OK ND) as (IV & G).
+    { cbn [lenN]. lia. }
+    { unfold quiet; stg; auto. }
+    { exact PT. }
+    { exact EL. }
+    split; [|exact G].
+    destruct IV as (A1 & A2 & A3 & A4 & A5 & A6 & A7). unfold inv. repeat split; auto.
+  - (* resumeMatchingAt(p) *)
+    cbn [startof node_run doMatch] in E. fold (kmap cs) in E.
+    cbn [vpath tailcrumbs] in VP, PT. destruct (nthN p cs) as [x|] eqn:EN; [|destruct VP].
+    destruct VP as (_ & VP).
+    destruct (nthN_split _ _ _ EN) as (CS & LP).
+    destruct (and_loop cur p 0 (kmap cs) c) as [z c1] eqn:EL.
+    inversion E; subst r c'.
+    rewrite CS in EL. unfold kmap in EL. rewrite map_app in EL. fold (kmap (takeN p cs)) in EL.
+    fold (kmap (x :: dropN (p + 1) cs)) in EL.
+    rewrite and_loop_skip in EL by (unfold kmap; rewrite lenN_map; lia).
+    unfold kmap at 1 in EL. rewrite lenN_map in EL. cbn [N.add] in EL.
+    rewrite CS in ND. rewrite flat_map_app in ND. apply NoDup_app_r in ND.
+    assert (OK' : Forall run_ok (x :: dropN (p + 1) cs)).
+    { rewrite CS in OK. apply Forall_app in OK. exact (proj2 OK). }
+    pose proof (Forall_inv OK') as H1. pose proof (Forall_inv_tail OK') as H2.
+    assert (G := and_step (takeN p cs) x (dropN (p + 1) cs) pit p c z c1 CS H1 ND ltac:(lia)).
+    rewrite LP in G, EL.
+    destruct G as (IV & G).
+    + split; [exact Q|]. split; assumption.
+    + intros c2 r2 c2' Q2 P2 E2.
+      assert (G2 := and_fresh p (dropN (p + 1) cs) (takeN p cs ++ [x]) c2 r2 c2').
+      rewrite lenN_app, LP in G2. cbn [lenN] in G2. apply G2; try assumption.
+      * rewrite <- app_assoc. exact CS.
+      * cbn [flat_map] in ND. eapply NoDup_app_r; exact ND.
+      * lia.
+    + exact EL.
+    + cbn [evalp]. rewrite EN.
+      split; [eapply inv_weaken; [exact IV|]|].
+      { rewrite CS at 2. rewrite flat_map_app. apply incl_appr, incl_refl. }
+      destruct G as [G|(T1 & T2 & T3 & T4 & T5)]; [left; exact G|].
+      right. split; [exact T1|]. split; [exact T2|]. split; [exact T3|]. split; [|exact T5].
+      eapply pend_weaken; [exact T4|]. rewrite CS at 2. rewrite flat_map_app. apply incl_appr, incl_refl.
+Qed.
+End AndNode.
+
+(* ---------- Acl::OrNode::doMatch (inner any-of nodes and the root Acl::Tree) ---------- *)
+Definition is_some {A} (o : option A) : bool := match o with Some _ => true | None => false end.
+
+Lemma or_loop_cons isbanned record cur start idx cid run l c :
+  or_loop isbanned record cur start idx ((cid, run) :: l) c =
+  if idx <? start then or_loop isbanned record cur start (idx + 1) l c
+  else if isbanned c idx then or_loop isbanned record cur start (idx + 1) l c
+  else let '(b, c1) := matchChild cur idx cid run c in
+       if b then (1%Z, if record then set_lastMatch (Some idx) c1 else c1)
+       else if negb (keepMatching c1) then ((-1)%Z, c1)
+       else or_loop isbanned record cur start (idx + 1) l c1.
+Proof. reflexivity. Qed.
+
+Lemma or_loop_skip isbanned record cur start c : forall l1 l2 idx,
+  idx + lenN l1 <= start ->
+  or_loop isbanned record cur start idx (l1 ++ l2) c = or_loop isbanned record cur start (idx + lenN l1) l2 c.
+Proof.
+  induction l1 as [|[cid run] l1 IH]; intros l2 idx H; cbn [app lenN].
+  - now rewrite N.add_0_r.
+  - cbn [lenN] in H. rewrite or_loop_cons.
+    replace (idx <? start) with true by (symmetry; apply N.ltb_lt; lia).
+    rewrite IH by lia. f_equal. lia.
+Qed.
+
+Section OrLoop.
+Variables (cur : N) (cs : list node) (isbanned : st -> N -> bool) (record : bool) (isb : N -> bool)
+          (bans : list answer).
+Hypothesis HB : forall c q, banned c = bans -> isbanned c q = isb q.
+
+Definition opost (ids : list N) (V : option N) (c : st) (r : Z) (c' : st) : Prop :=
+  inv ids c c' /\
+  ((stg c' = SNone /\ path c' = [] /\ (r =? 1)%Z = is_some V /\
+      (record = true -> forall q, V = Some q -> lastMatch c' = Some q))
+   \/ (stg c' = SRunning /\ (r =? 1)%Z = false /\ asyncCaller c' = true /\ pend ids c' /\
+       exists q x pi', nthN q cs = Some x /\ isb q = false /\ vpath pi' x /\
+         path c' = (cur, q) :: crumbs pi' x /\
+         (if evalp (lv c') pi' x then Some q else first_from (lv c') isb (q + 1) (dropN (q + 1) cs)) = V)).
+
+Lemma opost_weaken ids ids' V c r c' : opost ids V c r c' -> incl ids ids' -> opost ids' V c r c'.
+Proof.
+  intros (IV & G) IN. split; [eapply inv_weaken; eassumption|].
+  destruct G as [G|(T1 & T2 & T3 & T4 & T5)]; [left; exact G|].
+  right. split; [exact T1|]. split; [exact T2|]. split; [exact T3|]. split; [|exact T5].
+  eapply pend_weaken; eassumption.
+Qed.
+
+Lemma or_step pre x suf pit start c r c' :
+  cs = pre ++ x :: suf -> run_ok x -> NoDup (flat_map leaf_ids (x :: suf)) -> start <= lenN pre ->
+  banned c = bans -> isb (lenN pre) = false -> mcpre x pit c ->
+  (forall c1 r c', quiet c1 -> path c1 = [] -> banned c1 = bans ->
+     or_loop isbanned record cur start (lenN pre + 1) (kmap suf) c1 = (r, c') ->
+     opost (flat_map leaf_ids suf) (first_from (lv c1) isb (lenN pre + 1) suf) c1 r c') ->
+  or_loop isbanned record cur start (lenN pre) (kmap (x :: suf)) c = (r, c') ->
+  opost (flat_map leaf_ids (x :: suf))
+        (if evalp (lv c) pit x then Some (lenN pre) else first_from (lv c) isb (lenN pre + 1) suf) c r c'.
+Proof.
+  intros CS OK ND ST BN NB PRE K E. cbn [flat_map] in *.
+  cbn [kmap map] in E. rewrite or_loop_cons in E.
+  replace (lenN pre <? start) with false in E by (symmetry; apply N.ltb_ge; lia).
+  rewrite (HB c _ BN), NB in E.
+  destruct (matchChild cur (lenN pre) (node_id x) (node_run scr x) c) as [b c1] eqn:EM.
+  assert (NX : nthN (lenN pre) cs = Some x) by (rewrite CS; apply nthN_app_len).
+  assert (DX : dropN (lenN pre + 1) cs = suf) by (rewrite CS; apply dropN_app_len).
+  destruct (matchChild_ok _ _ _ _ _ _ _ OK (NoDup_app_l _ _ ND) PRE EM) as (IV & G).
+  assert (FR : forall j, In j (flat_map leaf_ids suf) -> lv c1 j = lv c j) by (eapply frame_lv; eassumption).
+  destruct G as [(S1 & S2 & S3)|(S1 & S2 & S3 & S4 & pi' & S5 & S6 & S7)].
+  - (* the child completed *)
+    destruct IV as (A1 & A2 & A3 & A4 & A5 & A6 & A7).
+    assert (IV : inv (leaf_ids x) c c1) by (unfold inv; repeat split; auto).
+    rewrite <- S3. destruct b.
+    + inversion E; subst r c'. split.
+      { eapply inv_weaken; [|apply incl_appl, incl_refl].
+        destruct record; [unfold inv; stg; repeat split; auto| exact IV]. }
+      left. destruct record; stg; (split; [exact S1|]); (split; [exact S2|]); (split; [reflexivity|]).
+      * intros _ q Hq. inversion Hq; reflexivity.
+      * intros C; discriminate.
+    + rewrite (quiet_keep c1 S1 A2) in E. cbn [negb] in E. fold (kmap suf) in E.
+      assert (BN1 : banned c1 = bans) by congruence.
+      destruct (K c1 r c' (conj S1 (conj A2 A1)) S2 BN1 E) as (IV2 & G2).
+      rewrite (first_from_ext _ _ _ _ _ FR) in G2.
+      split; [eapply inv_trans; [exact IV| exact IV2| apply incl_appl, incl_refl| apply incl_appr, incl_refl]|].
+      destruct G2 as [G2|(T1 & T2 & T3 & T4 & T5)]; [left; exact G2|].
+      right. split; [exact T1|]. split; [exact T2|]. split; [exact T3|].
+      split; [eapply pend_weaken; [exact T4| apply incl_appr, incl_refl]| exact T5].
+  - (* the child suspended *)
+    subst b. rewrite (running_stop c1 S1) in E. cbn [negb] in E. inversion E; subst r c'.
+    split; [eapply inv_weaken; [exact IV| apply incl_appl, incl_refl]|].
+    right. split; [exact S1|]. split; [reflexivity|]. split; [exact S3|].
+    split; [eapply pend_weaken; [exact S4| apply incl_appl, incl_refl]|].
+    exists (lenN pre), x, pi'. rewrite DX.
+    split; [exact NX|]. split; [exact NB|]. split; [exact S5|]. split; [exact S6|].
+    rewrite S7. rewrite (first_from_ext _ _ _ _ _ FR). reflexivity.
+Qed.
+
+Lemma or_fresh start : forall suf pre c r c',
+  cs = pre ++ suf -> Forall run_ok suf -> NoDup (flat_map leaf_ids suf) -> start <= lenN pre ->
+  quiet c -> path c = [] -> banned c = bans ->
+  or_loop isbanned record cur start (lenN pre) (kmap suf) c = (r, c') ->
+  opost (flat_map leaf_ids suf) (first_from (lv c) isb (lenN pre) suf) c r c'.
+Proof.
+  induction suf as [|x suf IH]; intros pre c r c' CS OK ND ST Q PT BN E.
+  - cbn in E. inversion E; subst r c'. destruct Q as (Q1 & Q2 & Q3).
+    split; [apply inv_refl; assumption|]. left. cbn [first_from is_some].
+    split; [exact Q1|]. split; [exact PT|]. split; [reflexivity|]. intros _ q C; discriminate.
+  - pose proof (Forall_inv OK) as H1. pose proof (Forall_inv_tail OK) as H2.
+    assert (REC : forall c1 r1 c1', quiet c1 -> path c1 = [] -> banned c1 = bans ->
+              or_loop isbanned record cur start (lenN pre + 1) (kmap suf) c1 = (r1, c1') ->
+              opost (flat_map leaf_ids suf) (first_from (lv c1) isb (lenN pre + 1) suf) c1 r1 c1').
+    { intros c1 r1 c1' Q1 P1 B1 E1.
+      assert (G := IH (pre ++ [x]) c1 r1 c1'). rewrite lenN_app in G. cbn [lenN] in G.
+      replace (lenN pre + N.succ 0) with (lenN pre + 1) in G by lia.
+      apply G; try assumption.
+      - rewrite <- app_assoc. exact CS.
+      - cbn [flat_map] in ND. eapply NoDup_app_r; exact ND.
+      - lia. }
+    cbn [first_from]. destruct (isb (lenN pre)) eqn:NB; cbn [negb andb].
+    + (* banned rule: skipped *)
+      cbn [kmap map] in E. rewrite or_loop_cons in E.
+      replace (lenN pre <? start) with false in E by (symmetry; apply N.ltb_ge; lia).
+      rewrite (HB c _ BN), NB in E. fold (kmap suf) in E.
+      eapply opost_weaken; [apply REC; eassumption|]. cbn [flat_map]. apply incl_appr, incl_refl.
+    + assert (G := or_step pre x suf [] start c r c' CS H1 ND ST BN NB).
+      cbn [evalp] in G. apply G; [split; [exact Q|]; split; [exact Logic.I| exact PT] | exact REC | exact E].
+Qed.
+
+(* matching from position p along the path pit of child p *)
+Lemma or_resume p x pit c r c' :
+  nthN p cs = Some x -> Forall run_ok cs -> NoDup (flat_map leaf_ids cs) ->
+  banned c = bans -> isb p = false -> mcpre x pit c ->
+  or_loop isbanned record cur p 0 (kmap cs) c = (r, c') ->
+  opost (flat_map leaf_ids cs)
+        (if evalp (lv c) pit x then Some p else first_from (lv c) isb (p + 1) (dropN (p + 1) cs)) c r c'.
+Proof.
+  intros EN OK ND BN NB PRE EL.
+  destruct (nthN_split _ _ _ EN) as (CS & LP).
+  rewrite CS in EL. unfold kmap in EL. rewrite map_app in EL. fold (kmap (takeN p cs)) in EL.
+  fold (kmap (x :: dropN (p + 1) cs)) in EL.
+  rewrite or_loop_skip in EL by (unfold kmap; rewrite lenN_map; lia).
+  unfold kmap at 1 in EL. rewrite lenN_map in EL. cbn [N.add] in EL.
+  assert (ND' := ND). rewrite CS in ND'. rewrite flat_map_app in ND'. apply NoDup_app_r in ND'.
+  assert (OK' : Forall run_ok (x :: dropN (p + 1) cs)).
+  { rewrite CS in OK. apply Forall_app in OK. exact (proj2 OK). }
+  pose proof (Forall_inv OK') as H1. pose proof (Forall_inv_tail OK') as H2.
+  assert (G := or_step (takeN p cs) x (dropN (p + 1) cs) pit p c r c' CS H1 ND' ltac:(lia) BN).
+  rewrite LP in G, EL.
+  eapply opost_weaken.
+  - apply G; [exact NB| exact PRE| | exact EL].
+    intros c2 r2 c2' Q2 P2 B2 E2.
+    assert (G2 := or_fresh p (dropN (p + 1) cs) (takeN p cs ++ [x]) c2 r2 c2').
+    rewrite lenN_app, LP in G2. cbn [lenN] in G2.
+    replace (p + N.succ 0) with (p + 1) in G2 by lia. apply G2; try assumption.
+    + rewrite <- app_assoc. exact CS.
+    + cbn [flat_map] in ND'. eapply NoDup_app_r; exact ND'.
+    + lia.
+  - rewrite CS at 2. rewrite flat_map_app. apply incl_appr, incl_refl.
+Qed.
+End OrLoop.
+
+(* inner OrNode / Acl::AnyOf *)
+Lemma or_node_ok cur k cs : k = KOr \/ k = KAnyOf -> Forall run_ok cs -> run_ok (Inner cur k cs).
+Proof.
+  intros HK OK ND pi c r c' (Q & _ & _ & VP & PT) E. cbn [leaf_ids] in *.
+  set (isbanned := fun (_ : st) (_ : N) => false) in *.
+  assert (HB : forall (c0 : st) (q : N), banned c0 = banned c -> isbanned c0 q = (fun _ : N => false) q) by reflexivity.
+  assert (DM : forall s l c0, doMatch k cur s l c0 = or_loop isbanned false cur s 0 l c0)
+    by (intros; destruct HK; subst k; reflexivity).
+  assert (CONV : forall z c1 V, 
+            opost cur cs false (fun _ => false) (flat_map leaf_ids cs) V c z c1 ->
+            gpost (flat_map leaf_ids cs) (Inner cur k cs) (is_some V) c (z =? 1)%Z c1).
+  { intros z c1 V (IV & G). split; [exact IV|].
+    destruct G as [(S1 & S2 & S3 & _)|(S1 & S2 & S3 & S4 & q & x & pi' & T1 & T2 & T3 & T4 & T5)]; [left; auto|].
+    right. split; [exact S1|]. split; [exact S2|]. split; [exact S3|]. split; [exact S4|].
+    exists (q :: pi'). cbn [vpath crumbs evalp]. rewrite T1.
+    split; [split; [destruct HK; subst k; exact Logic.I| exact T3]|]. split; [exact T4|].
+    rewrite <- T5. rewrite (existsb_first_from _ (q + 1)).
+    destruct HK; subst k; destruct (evalp (lv c1) pi' x); reflexivity. }
+  destruct pi as [|p pit].
+  - cbn [startof node_run] in E. fold (kmap cs) in E. rewrite DM in E.
+    destruct (or_loop isbanned false cur 0 0 (kmap cs) (set_lastName (Some cur) c)) as [z c1] eqn:EL.
+    inversion E; subst r c'. destruct Q as (Q1 & Q2 & Q3).
+    assert (G := or_fresh cur cs isbanned false (fun _ => false) (banned c) HB 0 cs []
+                   (set_lastName (Some cur) c) z c1 eq_refl OK ND).
+    cbn [lenN] in G.
+    assert (G' : opost cur cs false (fun _ => false) (flat_map leaf_ids cs)
+                   (first_from (lv c) (fun _ => false) 0 cs) c z c1).
+    { destruct G as (IV & G); [lia| unfold quiet; stg; auto| exact PT| reflexivity| exact EL|].
+      split; [|exact G]. destruct IV as (A1 & A2 & A3 & A4 & A5 & A6 & A7). unfold inv. repeat split; auto. }
+    apply CONV in G'. cbn [evalp eval].
+    replace (match k with KNot => _ | KAnd => _ | KOr | KAnyOf => existsb (eval (lv c)) cs | KAllOf => _ end)
+      with (existsb (eval (lv c)) cs) by (destruct HK; subst k; reflexivity).
+    rewrite (existsb_first_from _ 0). exact G'.
+  - cbn [startof node_run] in E. fold (kmap cs) in E. rewrite DM in E.
+    cbn [vpath tailcrumbs] in VP, PT. destruct (nthN p cs) as [x|] eqn:EN; [|destruct VP].
+    destruct VP as (_ & VP).
+    destruct (or_loop isbanned false cur p 0 (kmap cs) c) as [z c1] eqn:EL.
+    inversion E; subst r c'.
+    assert (G := or_resume cur cs isbanned false (fun _ => false) (banned c) HB p x pit c z c1 EN OK ND
+                   eq_refl eq_refl (conj Q (conj VP PT)) EL).
+    apply CONV in G. cbn [evalp]. rewrite EN. rewrite (existsb_first_from _ (p + 1)).
+    destruct HK; subst k; destruct (evalp (lv c) pit x); exact G.
+Qed.
+
+(* ---------- Acl::NotNode::doMatch and Acl::AllOf::doMatch: one child at nodes.begin() ---------- *)
+Lemma single_step cur k x rest pit c z c' :
+  k = KNot \/ k = KAllOf -> run_ok x -> NoDup (leaf_ids x) -> mcpre x pit c ->
+  doMatch k cur 0 (kmap (x :: rest)) c = (z, c') ->
+  gpost (leaf_ids x) (Inner cur k (x :: rest))
+        (match k with KNot => negb (evalp (lv c) pit x) | _ => evalp (lv c) pit x end) c (z =? 1)%Z c'.
+Proof.
+  intros HK OK ND PRE E.
+  assert (E' : (let '(b, c1) := matchChild cur 0 (node_id x) (node_run scr x) c in
+                match k with
+                | KNot => if b then (0%Z, c1) else if negb (keepMatching c1) then ((-1)%Z, c1) else (1%Z, c1)
+                | _ => if b then (1%Z, c1) else ((if keepMatching c1 then 0 else -1)%Z, c1)
+                end) = (z, c')).
+  { destruct HK; subst k; exact E. }
+  clear E. destruct (matchChild cur 0 (node_id x) (node_run scr x) c) as [b c1] eqn:EM.
+  destruct (matchChild_ok _ _ _ _ _ _ _ OK ND PRE EM) as (IV & G).
+  destruct G as [(S1 & S2 & S3)|(S1 & S2 & S3 & S4 & pi' & S5 & S6 & S7)].
+  - assert (KM : keepMatching c1 = true) by (apply quiet_keep; [exact S1| apply IV]).
+    rewrite KM in E'. rewrite <- S3.
+    assert (EZ : c' = c1 /\ (z =? 1)%Z = match k with KNot => negb b | _ => b end).
+    { destruct HK; subst k; destruct b; cbn [negb] in E'; inversion E'; subst; split; reflexivity. }
+    destruct EZ as (-> & ->). split; [exact IV|]. left. auto.
+  - subst b. rewrite (running_stop c1 S1) in E'.
+    assert (EZ : c' = c1 /\ (z =? 1)%Z = false).
+    { destruct HK; subst k; cbn [negb] in E'; inversion E'; subst; split; reflexivity. }
+    destruct EZ as (-> & ->). split; [exact IV|].
+    right. split; [exact S1|]. split; [reflexivity|]. split; [exact S3|]. split; [exact S4|].
+    exists (0 :: pi'). cbn [vpath crumbs evalp nthN N.eqb].
+    split; [split; [destruct HK; subst k; reflexivity| exact S5]|]. split; [exact S6|].
+    rewrite S7. destruct HK; subst k; reflexivity.
+Qed.
+
+Lemma single_node_ok cur k cs :
+  k = KNot \/ k = KAllOf -> (k = KNot -> cs <> []) -> Forall run_ok cs -> run_ok (Inner cur k cs).
+Proof.
+  intros HK NE OK ND pi c r c' (Q & _ & _ & VP & PT) E. cbn [leaf_ids] in *.
+  destruct cs as [|x rest].
+  { (* an all-of without lines matches *)
+    destruct HK as [->| ->]; [exfalso; apply NE; reflexivity|].
+    destruct pi as [|p pit]; [|cbn [vpath nthN] in VP; destruct VP].
+    cbn in E. inversion E; subst r c'. destruct Q as (Q1 & Q2 & Q3).
+    split; [unfold inv; stg; repeat split; auto|]. left. stg. auto. }
+  pose proof (Forall_inv OK) as OKx. cbn [flat_map] in ND.
+  assert (NDx := NoDup_app_l _ _ ND).
+  assert (WK : forall V c0 z c1, inv (leaf_ids x) c c0 -> lv c0 = lv c -> 
+             gpost (leaf_ids x) (Inner cur k (x :: rest)) V c0 z c1 ->
+             gpost (flat_map leaf_ids (x :: rest)) (Inner cur k (x :: rest)) V c z c1).
+  { intros V c0 z c1 IV0 LV (IV & G). cbn [flat_map].
+    split; [eapply inv_trans; [exact IV0| exact IV| apply incl_appl, incl_refl| apply incl_appl, incl_refl]|].
+    destruct G as [G|(T1 & T2 & T3 & T4 & T5)]; [left; exact G|].
+    right. split; [exact T1|]. split; [exact T2|]. split; [exact T3|]. split; [|exact T5].
+    eapply pend_weaken; [exact T4| apply incl_appl, incl_refl]. }
+  destruct Q as (Q1 & Q2 & Q3).
+  destruct pi as [|p pit].
+  - cbn [startof node_run] in E. fold (kmap (x :: rest)) in E.
+    destruct (doMatch k cur 0 (kmap (x :: rest)) (set_lastName (Some cur) c)) as [z c1] eqn:ED.
+    inversion E; subst r c'.
+    assert (G := single_step cur k x rest [] (set_lastName (Some cur) c) z c1 HK OKx NDx).
+    cbn [evalp] in G.
+    replace (evalp (lv c) [] (Inner cur k (x :: rest)))
+      with (match k with KNot => negb (eval (lv c) x) | _ => eval (lv c) x end)
+      by (destruct HK; subst k; reflexivity).
+    apply (WK _ (set_lastName (Some cur) c)); [unfold inv; stg; repeat split; auto| reflexivity|].
+    apply G; [|exact ED]. split; [unfold quiet; stg; auto|]. split; [exact Logic.I| exact PT].
+  - cbn [vpath tailcrumbs] in VP, PT.
+    destruct (nthN p (x :: rest)) as [y|] eqn:EN; [|destruct VP]. destruct VP as (P0 & VP).
+    assert (p = 0) by (destruct HK; subst k; exact P0). subst p. cbn in EN. inversion EN; subst y.
+    cbn [startof node_run] in E. fold (kmap (x :: rest)) in E.
+    destruct (doMatch k cur 0 (kmap (x :: rest)) c) as [z c1] eqn:ED.
+    inversion E; subst r c'.
+    assert (G := single_step cur k x rest pit c z c1 HK OKx NDx (conj (conj Q1 (conj Q2 Q3)) (conj VP PT)) ED).
+    replace (evalp (lv c) (0 :: pit) (Inner cur k (x :: rest)))
+      with (match k with KNot => negb (evalp (lv c) pit x) | _ => evalp (lv c) pit x end)
+      by (destruct HK; subst k; reflexivity).
+    apply (WK _ c); [apply inv_refl; assumption| reflexivity| exact G].
+Qed.
+
+(* ---------- 3. every well-formed node behaves ---------- *)
+Lemma node_ok : forall n, wf_node n = true -> run_ok n.
+Proof.
+  induction n as [i|i k cs IH] using node_ind2; intros WF; [apply leaf_ok|].
+  cbn [wf_node] in WF. apply andb_prop in WF. destruct WF as (WF1 & WF2).
+  assert (OK : Forall run_ok cs).
+  { rewrite forallb_forall in WF2. rewrite Forall_forall in IH |- *. intros x Hx. apply IH; [exact Hx| apply WF2; exact Hx]. }
+  destruct k.
+  - apply single_node_ok; [left; reflexivity| | exact OK]. intros _ ->. discriminate.
+  - apply and_node_ok; exact OK.
+  - apply or_node_ok; [left; reflexivity| exact OK].
+  - apply single_node_ok; [right; reflexivity| | exact OK]. intros C; discriminate.
+  - apply or_node_ok; [right; reflexivity| exact OK].
+Qed.
+
+(* ---------- 4. the root Acl::Tree and matchAndFinish ---------- *)
+Definition decide_V (m : mode) (t : tree) (V : option N) : code * N * bool :=
+  match V with
+  | Some pos =>
+      match actions t with
+      | [] => (Allowed, 0, false)
+      | _ => (acode (nth_action t pos), akind (nth_action t pos), false)
+      end
+  | None =>
+      match m with
+      | MFastList => (Denied, 0, false)
+      | _ => (opposite (acode (last (actions t) (action Dunno 0))), 0, true)
+      end
+  end.
+
+Lemma decide_eq m v t bans : decide m v t bans = decide_V m t (first_from v (rule_banned t bans) 0 (rules t)).
+Proof. reflexivity. Qed.
+
+
+Lemma nth_action_explicit t pos : explicit_actions t = true -> aimplicit (nth_action t pos) = false.
+Proof.
+  unfold explicit_actions, nth_action. intros H.
+  destruct (nthN pos (actions t)) as [a|] eqn:E; [|reflexivity].
+  rewrite forallb_forall in H. apply nthN_in in E. apply H in E. now apply negb_true_iff in E.
+Qed.
+
+Section Root.
+Variables (t : tree) (bans : list answer).
+Hypothesis WF : forallb wf_node (rules t) = true.
+Hypothesis ND : NoDup (tree_leaf_ids t).
+Hypothesis EX : explicit_actions t = true.
+Let rb := rule_banned t bans.
+Let ids := tree_leaf_ids t.
+
+Lemma tree_banned_rb c q : banned c = bans -> tree_banned t c q = rb q.
+Proof. intros B. unfold tree_banned, rb, rule_banned, bannedAction. rewrite B. reflexivity. Qed.
+
+Lemma rules_ok : Forall run_ok (rules t).
+Proof.
+  rewrite forallb_forall in WF. rewrite Forall_forall. intros x Hx. apply node_ok, WF, Hx.
+Qed.
+
+(* the value of the suspended root recursion *)
+Definition susp_core (V : option N) (c' : st) : Prop :=
+  stg c' = SRunning /\ finished c' = false /\ asyncCaller c' = true /\ pend ids c' /\
+  exists q x pi', nthN q (rules t) = Some x /\ rb q = false /\ vpath pi' x /\
+    path c' = (tid t, q) :: crumbs pi' x /\
+    (if evalp (lv c') pi' x then Some q else first_from (lv c') rb (q + 1) (dropN (q + 1) (rules t))) = V.
+
+Definition mfpost (V : option N) (c c' : st) : Prop :=
+  (forall j, (length (lrem c' j) <= length (lrem c j))%nat) /\
+  err c' = false /\ cbk c' = cbk c /\ asyncCaller c' = asyncCaller c /\ banned c' = banned c /\
+  ((stg c' = SNone /\ finished c' = true /\ exists q, V = Some q /\
+      forall m, (acode (ans c'), akind (ans c'), aimplicit (ans c')) = decide_V m t V)
+   \/ (stg c' = SNone /\ finished c' = false /\ V = None)
+   \/ susp_core V c').
+
+(* what matchAndFinish does with the outcome of the root OrNode loop *)
+Lemma finish_ok V c0 z c1 :
+  (forall q, V = Some q -> q < lenN (rules t)) ->
+  opost (tid t) (rules t) true rb ids V c0 z c1 ->
+  mfpost V c0 (if (z =? 1)%Z then
+                 let '(a, bad) := winningAction t c1 in markFinished a (if bad then set_err true c1 else c1)
+               else c1).
+Proof.
+  intros BD ((A1 & A2 & A3 & A4 & A5 & A6 & A7) & G).
+  destruct G as [(S1 & S2 & S3 & S4)|(S1 & S2 & S3 & S4 & S5)].
+  - rewrite S3. destruct V as [q|]; cbn [is_some].
+    + specialize (S4 eq_refl q eq_refl). specialize (BD q eq_refl).
+      assert (QB : lenN (rules t) <=? q = false) by (apply N.leb_gt; exact BD).
+      assert (WA : winningAction t c1 =
+                   (match actions t with [] => action Allowed 0 | _ => nth_action t q end, false)).
+      { unfold winningAction. rewrite S4, QB. destruct (actions t); reflexivity. }
+      rewrite WA. unfold markFinished, asyncInProgress. rewrite A2, S1. cbn [stage_eqb negb orb].
+      unfold mfpost. stg. refine (conj A7 (conj A1 (conj A5 (conj A3 (conj A4 _))))).
+      left. split; [exact S1|]. split; [reflexivity|].
+      exists q. split; [reflexivity|]. intros m. cbn [decide_V].
+      destruct (actions t) eqn:EA; [reflexivity|]. rewrite (nth_action_explicit t q EX). reflexivity.
+    + refine (conj A7 (conj A1 (conj A5 (conj A3 (conj A4 _))))). right. left. auto.
+  - rewrite S2. refine (conj A7 (conj A1 (conj A5 (conj A3 (conj A4 _))))). right. right.
+    unfold susp_core. auto.
+Qed.
+
+Lemma nthN_lt {A} (l : list A) p x : nthN p l = Some x -> p < lenN l.
+Proof.
+  intros H. destruct (nthN_split _ _ _ H) as (E & L). rewrite E, lenN_app. cbn [lenN]. lia.
+Qed.
+
+Lemma matchAndFinish_fresh c :
+  quiet c -> path c = [] -> banned c = bans ->
+  mfpost (first_from (lv c) rb 0 (rules t)) c (matchAndFinish scr t c).
+Proof.
+  intros Q PT BN. unfold matchAndFinish. rewrite PT. unfold tree_run. fold (kmap (rules t)).
+  destruct (or_loop (tree_banned t) true (tid t) 0 0 (kmap (rules t))
+              (set_lastMatch None (set_lastName (Some (tid t)) c))) as [z c1] eqn:EL.
+  set (c0 := set_lastMatch None (set_lastName (Some (tid t)) c)) in *.
+  destruct Q as (Q1 & Q2 & Q3).
+  assert (G := or_fresh (tid t) (rules t) (tree_banned t) true rb bans tree_banned_rb 0 (rules t) [] c0 z c1
+                 eq_refl rules_ok ND).
+  cbn [lenN] in G.
+  assert (G' : opost (tid t) (rules t) true rb ids (first_from (lv c0) rb 0 (rules t)) c0 z c1).
+  { apply G; [lia| unfold quiet, c0; stg; auto| exact PT| exact BN| exact EL]. }
+  assert (BD : forall q, first_from (lv c0) rb 0 (rules t) = Some q -> q < lenN (rules t)).
+  { intros q H. apply first_from_bound in H. lia. }
+  assert (M := finish_ok _ c0 z c1 BD G').
+  destruct M as (M1 & M2 & M3 & M4 & M5 & M6). exact (conj M1 (conj M2 (conj M3 (conj M4 (conj M5 M6))))).
+Qed.
+
+Lemma matchAndFinish_resume V c q x pi' :
+  quiet c -> banned c = bans ->
+  nthN q (rules t) = Some x -> rb q = false -> vpath pi' x -> path c = (tid t, q) :: crumbs pi' x ->
+  (if evalp (lv c) pi' x then Some q else first_from (lv c) rb (q + 1) (dropN (q + 1) (rules t))) = V ->
+  mfpost V c (matchAndFinish scr t c).
+Proof.
+  intros Q BN EN NB VP PT EV. unfold matchAndFinish. rewrite PT. cbn [fst snd]. rewrite N.eqb_refl.
+  unfold tree_run. fold (kmap (rules t)).
+  set (c0 := set_lastMatch None (set_path (crumbs pi' x) c)).
+  destruct (or_loop (tree_banned t) true (tid t) q 0 (kmap (rules t)) c0) as [z c1] eqn:EL.
+  destruct Q as (Q1 & Q2 & Q3).
+  assert (G := or_resume (tid t) (rules t) (tree_banned t) true rb bans tree_banned_rb q x pi' c0 z c1
+                 EN rules_ok ND BN NB).
+  assert (G' : opost (tid t) (rules t) true rb ids V c0 z c1).
+  { rewrite <- EV. apply G; [|exact EL]. split; [unfold quiet, c0; stg; auto|]. split; [exact VP| reflexivity]. }
+  assert (BD : forall q0, V = Some q0 -> q0 < lenN (rules t)).
+  { intros q0 H. rewrite <- EV in H. pose proof (nthN_lt _ _ _ EN) as LT.
+    destruct (evalp (lv c) pi' x); [inversion H; subst; exact LT|].
+    apply first_from_bound in H. destruct (nthN_split _ _ _ EN) as (ES & LP).
+    assert (lenN (rules t) = q + 1 + lenN (dropN (q + 1) (rules t))).
+    { rewrite ES at 1. rewrite lenN_app, LP. cbn [lenN]. lia. }
+    lia. }
+  assert (M := finish_ok V c0 z c1 BD G').
+  destruct M as (M1 & M2 & M3 & M4 & M5 & M6). exact (conj M1 (conj M2 (conj M3 (conj M4 (conj M5 M6))))).
+Qed.
+End Root.
+
+(* ---------- 5. the checks ---------- *)
+Section Top.
+Variables (t : tree) (bans : list answer).
+Hypothesis WF : forallb wf_node (rules t) = true.
+Hypothesis ND : NoDup (tree_leaf_ids t).
+Hypothesis EX : explicit_actions t = true.
+Let rb := rule_banned t bans.
+Let ids := tree_leaf_ids t.
+
+Definition answered (V : option N) (c : st) : Prop :=
+  err c = false /\ exists a, cbk c = Some a /\ (acode a, akind a, aimplicit a) = decide_V MNonBlocking t V.
+
+Definition suspended (V : option N) (c : st) : Prop :=
+  err c = false /\ cbk c = None /\ banned c = bans /\ susp_core t bans V c.
+
+Lemma opposite_eq c : match c with Denied => Allowed | Allowed => Denied | _ => Dunno end = opposite c.
+Proof. destruct c; reflexivity. Qed.
+
+Lemma complete_finished c :
+  stg c = SNone -> finished c = true -> completeNonBlocking t c = set_cbk (Some (ans c)) c.
+Proof.
+  intros S1 S2. unfold completeNonBlocking, asyncInProgress. rewrite S1. cbn [stage_eqb negb].
+  rewrite S2. unfold checkCallback. rewrite S2. reflexivity.
+Qed.
+
+Lemma complete_unfinished c :
+  stg c = SNone -> finished c = false ->
+  completeNonBlocking t c =
+  set_cbk (Some (mkAns (opposite (acode (lastAction t))) 0 true (lastName c)))
+    (set_ans (mkAns (opposite (acode (lastAction t))) 0 true (lastName c)) (set_finished true c)).
+Proof.
+  intros S1 S2. unfold completeNonBlocking, asyncInProgress. rewrite S1. cbn [stage_eqb negb].
+  rewrite S2. unfold calcImplicitAnswer, markFinished, asyncInProgress. rewrite S1, S2. cbn [stage_eqb negb orb].
+  unfold checkCallback. stg. rewrite opposite_eq. reflexivity.
+Qed.
+
+Lemma lrem_markFinished a c : lrem (markFinished a c) = lrem c.
+Proof. unfold markFinished. destruct (finished c || asyncInProgress c); reflexivity. Qed.
+Lemma lrem_checkCallback c : lrem (checkCallback c) = lrem c.
+Proof. unfold checkCallback. destruct (finished c); reflexivity. Qed.
+Lemma lrem_complete c : lrem (completeNonBlocking t c) = lrem c.
+Proof.
+  unfold completeNonBlocking. rewrite lrem_checkCallback.
+  destruct (asyncInProgress c);
+    (destruct (finished _); [reflexivity| unfold calcImplicitAnswer; rewrite lrem_markFinished; reflexivity]).
+Qed.
+
+(* after matchAndFinish: completeNonBlocking, or stay suspended *)
+Lemma complete_ok V c c' :
+  mfpost t bans V c c' -> cbk c = None -> banned c = bans ->
+  (asyncInProgress c' = false /\ answered V (completeNonBlocking t c'))
+  \/ (asyncInProgress c' = true /\ suspended V c').
+Proof.
+  intros (M1 & M2 & M3 & M4 & M5 & M6) CB BN.
+  destruct M6 as [(S1 & S2 & q & S3 & S4)|[(S1 & S2 & S3)|S]].
+  - left. unfold asyncInProgress. rewrite S1. split; [reflexivity|].
+    rewrite (complete_finished c' S1 S2).
+    unfold answered. stg. split; [exact M2|]. exists (ans c'). split; [reflexivity| apply S4].
+  - left. unfold asyncInProgress. rewrite S1. split; [reflexivity|].
+    rewrite (complete_unfinished c' S1 S2).
+    unfold answered. stg. split; [exact M2|].
+    eexists. split; [reflexivity|]. cbn [acode akind aimplicit]. subst V. cbn [decide_V].
+    unfold lastAction. reflexivity.
+  - right. destruct S as (S1 & S'). unfold asyncInProgress. rewrite S1. split; [reflexivity|].
+    unfold suspended. split; [exact M2|]. split; [congruence|]. split; [congruence|]. exact (conj S1 S').
+Qed.
+
+Lemma nonBlockingCheck_ok c0 :
+  stg c0 = SNone -> err c0 = false -> path c0 = [] -> cbk c0 = None -> banned c0 = bans ->
+  let V := first_from (fun i => lval_k true (retry (scr i)) (truth (scr i)) 0 (lrem c0 i)) rb 0 (rules t) in
+  let c' := nonBlockingCheck scr t c0 in
+  (answered V c' \/ suspended V c') /\ (forall j, (length (lrem c' j) <= length (lrem c0 j))%nat).
+Proof.
+  intros S0 E0 P0 C0 B0 V c'. unfold c', nonBlockingCheck.
+  set (c1 := set_asyncCaller true (preCheck c0)).
+  assert (M := matchAndFinish_fresh t bans WF ND EX c1).
+  assert (M' : mfpost t bans V c1 (matchAndFinish scr t c1)).
+  { apply M; unfold quiet, c1, preCheck; stg; auto. }
+  destruct (complete_ok V c1 _ M') as [(A & B)|(A & B)]; try (unfold c1, preCheck; stg; assumption).
+  - rewrite A. split; [left; exact B|].
+    intros j. destruct M' as (M1 & _). specialize (M1 j). rewrite lrem_complete. exact M1.
+  - rewrite A. split; [right; exact B|]. destruct M' as (M1 & _). exact M1.
+Qed.
+
+Lemma lv_deliver c j rest :
+  asyncCaller c = true -> lrem c j = Real :: rest ->
+  forall i, lv (set_stg SNone (deliver j c)) i = lv c i.
+Proof.
+  intros AC LR i. unfold lv, deliver. stg. rewrite AC. unfold upd.
+  destruct (i =? j) eqn:E; [|reflexivity]. apply N.eqb_eq in E. subst i. rewrite LR. reflexivity.
+Qed.
+
+Lemma resume_ok V c :
+  suspended V c ->
+  exists j, pending c = Some j /\
+    let c' := resumeNonBlockingCheck scr t (deliver j c) in
+    (answered V c' \/ suspended V c') /\ (total ids c' < total ids c)%nat.
+Proof.
+  intros (E0 & C0 & B0 & S1 & S2 & S3 & (j & rest & P1 & P2 & P3) & q & x & pi' & T1 & T2 & T3 & T4 & T5).
+  exists j. split; [exact P1|]. intros c'. unfold c', resumeNonBlockingCheck.
+  assert (D1 : stg (deliver j c) = SRunning) by exact S1.
+  rewrite D1. cbn [stage_eqb]. 
+  set (c2 := set_stg SNone (deliver j c)).
+  assert (P2' : path c2 = (tid t, q) :: crumbs pi' x) by exact T4.
+  rewrite P2'.
+  assert (F2 : finished c2 = false) by exact S2. rewrite F2.
+  assert (LV := lv_deliver c j rest S3 P3). fold c2 in LV.
+  assert (M := matchAndFinish_resume t bans WF ND EX V c2 q x pi').
+  assert (M' : mfpost t bans V c2 (matchAndFinish scr t c2)).
+  { apply M; try assumption.
+    - unfold quiet, c2, deliver; stg; auto.
+    - rewrite <- T5. rewrite (evalp_ext _ _ pi' x (fun i _ => LV i)).
+      rewrite (first_from_ext _ _ rb (q + 1) _ (fun i _ => LV i)). reflexivity. }
+  assert (LT : (total ids (matchAndFinish scr t c2) < total ids c)%nat).
+  { destruct M' as (M1 & _). apply (Nat.le_lt_trans _ (total ids c2)); [apply total_le; exact M1|].
+    apply (total_lt ids c c2 j); [| exact P2|].
+    - intros i. unfold c2, deliver; stg. unfold upd. destruct (i =? j) eqn:E; [|lia].
+      apply N.eqb_eq in E. subst i. rewrite P3. cbn [tl length]. lia.
+    - unfold c2, deliver; stg. rewrite upd_same, P3. cbn [tl length]. lia. }
+  destruct (complete_ok V c2 _ M') as [(A & B)|(A & B)]; try assumption.
+  - rewrite A. split; [left; exact B|].
+    unfold total. rewrite lrem_complete. exact LT.
+  - rewrite A. destruct B as (B1 & B2 & B3 & B4 & B5 & B6 & B7 & q' & x' & pi2 & B8 & B9 & B10 & B11 & B12).
+    rewrite B11. split; [right|exact LT].
+    unfold suspended, susp_core. split; [exact B1|]. split; [exact B2|]. split; [exact B3|].
+    split; [exact B4|]. split; [exact B5|]. split; [exact B6|]. split; [exact B7|].
+    exists q', x', pi2. auto.
+Qed.
+
+Lemma nb_loop_ok V : forall fuel c,
+  answered V c \/ (suspended V c /\ (total ids c < fuel)%nat) ->
+  exists c', nb_loop scr fuel t c = Some c' /\ answered V c'.
+Proof.
+  induction fuel as [|f IH]; intros c [A|(S & LT)].
+  - exists c. destruct A as (A1 & a & A2 & A3). cbn [nb_loop]. rewrite A2. split; [reflexivity|].
+    split; [exact A1|]. exists a. auto.
+  - lia.
+  - exists c. destruct A as (A1 & a & A2 & A3). cbn [nb_loop]. rewrite A2. split; [reflexivity|].
+    split; [exact A1|]. exists a. auto.
+  - destruct (resume_ok V c S) as (j & PJ & G). cbn zeta in G. destruct G as (G & LT2).
+    cbn [nb_loop]. destruct S as (_ & CB & _). rewrite CB, PJ.
+    apply IH. destruct G as [G|G]; [left; exact G| right; split; [exact G| lia]].
+Qed.
+
+(* fastCheck() and fastCheck(list): goAsync() is refused, so matching never suspends *)
+Lemma fast_ok (m : mode) c0 :
+  m <> MNonBlocking ->
+  stg c0 = SNone -> err c0 = false -> path c0 = [] -> banned c0 = bans ->
+  let V := first_from (fun i => lval_k false (retry (scr i)) (truth (scr i)) 0 (lrem c0 i)) rb 0 (rules t) in
+  let c' := match m with MFastList => fastCheckList scr t c0 | _ => fastCheck scr t c0 end in
+  err c' = false /\ (acode (ans c'), akind (ans c'), aimplicit (ans c')) = decide_V m t V.
+Proof.
+  intros NM S0 E0 P0 B0 V c'.
+  set (c1 := set_asyncCaller false (preCheck c0)).
+  assert (M := matchAndFinish_fresh t bans WF ND EX c1).
+  assert (M' : mfpost t bans V c1 (matchAndFinish scr t c1)).
+  { apply M; unfold quiet, c1, preCheck; stg; auto. }
+  assert (EQ : c' = let c2 := matchAndFinish scr t c1 in
+                    if finished c2 then c2
+                    else match m with MFastList => markFinished (action Denied 0) c2
+                                    | _ => calcImplicitAnswer t c2 end).
+  { unfold c'. destruct m; [congruence| |]; cbn zeta; unfold fastCheck, fastCheckList; fold c1;
+      destruct (finished (matchAndFinish scr t c1)); reflexivity. }
+  rewrite EQ. cbn zeta. clear EQ.
+  destruct M' as (M1 & M2 & M3 & M4 & M5 & M6).
+  destruct M6 as [(S1 & S2 & q & S3 & S4)|[(S1 & S2 & S3)|S]].
+  - rewrite S2. split; [exact M2| apply S4].
+  - rewrite S2. subst V. rewrite S3.
+    assert (MK : forall a, err (markFinished a (matchAndFinish scr t c1)) = false /\
+              ans (markFinished a (matchAndFinish scr t c1)) =
+              mkAns (acode a) (akind a) (aimplicit a) (lastName (matchAndFinish scr t c1))).
+    { intros a. unfold markFinished, asyncInProgress. rewrite S1, S2. cbn [stage_eqb negb orb]. stg. auto. }
+    destruct m; [congruence| |].
+    + unfold calcImplicitAnswer. destruct (MK (mkAns (match acode (lastAction t) with Denied => Allowed | Allowed => Denied | _ => Dunno end) 0 true None)) as (K1 & K2).
+      rewrite K2. split; [exact K1|]. cbn [acode akind aimplicit decide_V]. rewrite opposite_eq. reflexivity.
+    + destruct (MK (action Denied 0)) as (K1 & K2). rewrite K2. split; [exact K1|]. reflexivity.
+  - destruct S as (_ & _ & AC & _). rewrite M4 in AC. unfold c1 in AC. cbn in AC. discriminate.
+Qed.
+End Top.
+
+Lemma total_init t tbl bans :
+  total (tree_leaf_ids t) (init_st bans (fun i => attempts (lookup_script tbl i))) = tree_attempts (lookup_script tbl) t.
+Proof. reflexivity. Qed.
+End Proofs.
+
+(* ---------- the theorems ---------- *)
+
+Theorem nonblocking_first_match t bans tbl :
+  tree_ok t = true -> forallb wf_node (rules t) = true -> explicit_actions t = true ->
+  NoDup (tree_leaf_ids t) ->
+  exists c a, run_check MNonBlocking t bans tbl = Some c /\ err c = false /\ cbk c = Some a /\
+    result a = decide MNonBlocking (fun i => leaf_value true (lookup_script tbl i)) t bans.
+Proof.
+  intros TK WF EX ND. unfold run_check. rewrite TK. cbn [negb].
+  set (scr := lookup_script tbl). set (c0 := init_st bans (fun i => attempts (scr i))).
+  destruct (nonBlockingCheck_ok scr t bans WF ND EX c0) as (G & LE); try reflexivity.
+  cbn zeta in G, LE.
+  set (V := first_from (fun i => lval_k true (retry (scr i)) (truth (scr i)) 0 (lrem c0 i))
+              (rule_banned t bans) 0 (rules t)) in *.
+  destruct (nb_loop_ok scr t bans WF ND EX V (S (tree_attempts scr t)) (nonBlockingCheck scr t c0))
+    as (c' & RUN & A1 & a & A2 & A3).
+  { destruct G as [G|G]; [left; exact G| right; split; [exact G|]].
+    pose proof (total_le (tree_leaf_ids t) c0 _ LE) as TL.
+    assert (TI : total (tree_leaf_ids t) c0 = tree_attempts scr t) by apply total_init.
+    lia. }
+  exists c', a. split; [exact RUN|]. split; [exact A1|]. split; [exact A2|].
+  unfold result. rewrite A3, decide_eq. reflexivity.
+Qed.
+
+Theorem fast_first_match m t bans tbl :
+  m <> MNonBlocking ->
+  tree_ok t = true -> forallb wf_node (rules t) = true -> explicit_actions t = true ->
+  NoDup (tree_leaf_ids t) ->
+  exists c, run_check m t bans tbl = Some c /\ err c = false /\
+    result (ans c) = decide m (fun i => leaf_value false (lookup_script tbl i)) t bans.
+Proof.
+  intros NM TK WF EX ND. unfold run_check. rewrite TK. cbn [negb].
+  set (scr := lookup_script tbl). set (c0 := init_st bans (fun i => attempts (scr i))).
+  destruct (fast_ok scr t bans WF ND EX m c0 NM) as (G1 & G2); try reflexivity.
+  cbn zeta in G1, G2. rewrite decide_eq.
+  destruct m; [congruence| |]; eexists; (split; [reflexivity|]); (split; [exact G1| exact G2]).
+Qed.
+
+(* ---------- corollaries: what the reference value of a leaf is ---------- *)
+
+Lemma lval_all_real rt tr : forall atts, forallb is_real atts = true -> lval_k true rt tr 0 atts = tr.
+Proof.
+  induction atts as [|a atts IH]; intros H; [reflexivity|]. cbn [forallb] in H. apply andb_prop in H.
+  destruct H as (H1 & H2). destruct a; [|discriminate]. cbn. apply IH, H2.
+Qed.
+
+(* every lookup really goes asynchronous (any number of times): the leaves are worth their truth values *)
+Theorem nonblocking_async_invisible t bans tbl :
+  tree_ok t = true -> forallb wf_node (rules t) = true -> explicit_actions t = true ->
+  NoDup (tree_leaf_ids t) ->
+  (forall i, In i (tree_leaf_ids t) -> forallb is_real (attempts (lookup_script tbl i)) = true) ->
+  exists c a, run_check MNonBlocking t bans tbl = Some c /\ err c = false /\ cbk c = Some a /\
+    result a = decide MNonBlocking (fun i => truth (lookup_script tbl i)) t bans.
+Proof.
+  intros TK WF EX ND AR.
+  destruct (nonblocking_first_match t bans tbl TK WF EX ND) as (c & a & R1 & R2 & R3 & R4).
+  exists c, a. split; [exact R1|]. split; [exact R2|]. split; [exact R3|]. rewrite R4.
+  unfold decide. erewrite first_from_ext; [reflexivity|].
+  intros j Hj. unfold leaf_value. apply lval_all_real, AR, Hj.
+Qed.
+
+(* the decision does not depend on how often (or whether) the leaves go asynchronous *)
+Theorem schedule_independent t bans tbl tbl' :
+  tree_ok t = true -> forallb wf_node (rules t) = true -> explicit_actions t = true ->
+  NoDup (tree_leaf_ids t) ->
+  (forall i, In i (tree_leaf_ids t) ->
+     truth (lookup_script tbl i) = truth (lookup_script tbl' i) /\
+     forallb is_real (attempts (lookup_script tbl i)) = true /\
+     forallb is_real (attempts (lookup_script tbl' i)) = true) ->
+  exists c a c' a', run_check MNonBlocking t bans tbl = Some c /\ cbk c = Some a /\
+    run_check MNonBlocking t bans tbl' = Some c' /\ cbk c' = Some a' /\ result a = result a'.
+Proof.
+  intros TK WF EX ND H.
+  destruct (nonblocking_async_invisible t bans tbl TK WF EX ND) as (c & a & R1 & _ & R3 & R4).
+  { intros i Hi. apply (H i Hi). }
+  destruct (nonblocking_async_invisible t bans tbl' TK WF EX ND) as (c' & a' & R1' & _ & R3' & R4').
+  { intros i Hi. apply (H i Hi). }
+  exists c, a, c', a'. repeat (split; [assumption|]). rewrite R4, R4'. unfold decide.
+  erewrite first_from_ext; [reflexivity|]. intros j Hj. apply (H j Hj).
+Qed.
+
+(* with synchronous leaves the fast checks decide like the non-blocking check *)
+Theorem fast_sync_truth m t bans tbl :
+  m <> MNonBlocking ->
+  tree_ok t = true -> forallb wf_node (rules t) = true -> explicit_actions t = true ->
+  NoDup (tree_leaf_ids t) ->
+  (forall i, In i (tree_leaf_ids t) -> attempts (lookup_script tbl i) = []) ->
+  exists c, run_check m t bans tbl = Some c /\ err c = false /\
+    result (ans c) = decide m (fun i => truth (lookup_script tbl i)) t bans.
+Proof.
+  intros NM TK WF EX ND SY.
+  destruct (fast_first_match m t bans tbl NM TK WF EX ND) as (c & R1 & R2 & R3).
+  exists c. split; [exact R1|]. split; [exact R2|]. rewrite R3. unfold decide.
+  erewrite first_from_ext; [reflexivity|]. intros j Hj. unfold leaf_value. rewrite (SY j Hj). reflexivity.
+Qed.
+
+(* ---------- the reference evaluation picks the least matching, non-banned rule ---------- *)
+Lemma first_from_least v isb : forall l idx q,
+  first_from v isb idx l = Some q ->
+  (exists x, nthN (q - idx) l = Some x /\ isb q = false /\ eval v x = true) /\
+  (forall p y, p < q - idx -> nthN p l = Some y -> isb (idx + p) = true \/ eval v y = false).
+Proof.
+  induction l as [|x l IH]; intros idx q H; cbn [first_from] in H; [discriminate|].
+  destruct (negb (isb idx) && eval v x) eqn:E.
+  - inversion H; subst q. apply andb_prop in E. destruct E as (E1 & E2). apply negb_true_iff in E1.
+    split.
+    + exists x. replace (idx - idx) with 0 by lia. cbn. auto.
+    + intros p y Hp. lia.
+  - pose proof H as HB. apply first_from_bound in HB. destruct HB as (B1 & B2).
+    destruct (IH _ _ H) as ((y & Y1 & Y2 & Y3) & L).
+    split.
+    + exists y. cbn [nthN]. replace (q - idx =? 0) with false by (symmetry; apply N.eqb_neq; lia).
+      replace (N.pred (q - idx)) with (q - (idx + 1)) by lia. auto.
+    + intros p z Hp Hz. cbn [nthN] in Hz. destruct (p =? 0) eqn:P0.
+      * apply N.eqb_eq in P0. subst p. inversion Hz; subst z. rewrite N.add_0_r.
+        apply andb_false_iff in E. destruct E as [E|E]; [left; now apply negb_false_iff in E| right; exact E].
+      * apply N.eqb_neq in P0. replace (idx + p) with (idx + 1 + N.pred p) by lia.
+        apply L; [lia| exact Hz].
+Qed.
+
+Lemma first_from_none v isb : forall l idx,
+  first_from v isb idx l = None ->
+  forall p y, nthN p l = Some y -> isb (idx + p) = true \/ eval v y = false.
+Proof.
+  induction l as [|x l IH]; intros idx H p y Hy; cbn [nthN] in Hy; [discriminate|].
+  cbn [first_from] in H. destruct (negb (isb idx) && eval v x) eqn:E; [discriminate|].
+  destruct (p =? 0) eqn:P0.
+  - apply N.eqb_eq in P0. subst p. inversion Hy; subst y. rewrite N.add_0_r.
+    apply andb_false_iff in E. destruct E as [E|E]; [left; now apply negb_false_iff in E| right; exact E].
+  - apply N.eqb_neq in P0. replace (idx + p) with (idx + 1 + N.pred p) by lia. apply (IH _ H). exact Hy.
+Qed.
+
+Theorem decide_is_first_match m v t bans :
+  match first_from v (rule_banned t bans) 0 (rules t) with
+  | Some q =>
+      (exists x, nthN q (rules t) = Some x /\ rule_banned t bans q = false /\ eval v x = true) /\
+      (forall p y, p < q -> nthN p (rules t) = Some y -> rule_banned t bans p = true \/ eval v y = false) /\
+      decide m v t bans = match actions t with
+                          | [] => (Allowed, 0, false)
+                          | _ => (acode (nth_action t q), akind (nth_action t q), false)
+                          end
+  | None =>
+      (forall p y, nthN p (rules t) = Some y -> rule_banned t bans p = true \/ eval v y = false) /\
+      decide m v t bans = match m with
+                          | MFastList => (Denied, 0, false)
+                          | _ => (opposite (acode (last (actions t) (action Dunno 0))), 0, true)
+                          end
+  end.
+Proof.
+  unfold decide. destruct (first_from v (rule_banned t bans) 0 (rules t)) as [q|] eqn:E.
+  - destruct (first_from_least _ _ _ _ _ E) as (A & B). rewrite N.sub_0_r in A, B.
+    split; [exact A|]. split; [|reflexivity]. intros p y Hp Hy. exact (B p y Hp Hy).
+  - split; [|reflexivity]. intros p y Hy. exact (first_from_none _ _ _ _ E p y Hy).
+Qed.
+
+Theorem empty_list_is_dunno i bans tbl :
+  exists c a, run_check MNonBlocking (mkTree i [] []) bans tbl = Some c /\ err c = false /\ cbk c = Some a /\
+    result a = (Dunno, 0, true).
+Proof.
+  destruct (nonblocking_first_match (mkTree i [] []) bans tbl eq_refl eq_refl eq_refl (NoDup_nil N))
+    as (c & a & H1 & H2 & H3 & H4).
+  exists c, a. auto.
 Qed.
